@@ -16,5 +16,7 @@ rm -f "$log"
 echo "seedtest: $pid exit=$rc"
 rm -rf "$d" "/verif/work/alt-$h"
 # translators write into the shared coq/Generated even for a scratch copy: put /repo's versions back
-git -C /verif checkout -- coq/Generated 2>/dev/null
+# (under the driver's "coq" lock: a check of another property may be between its translator and its build)
+mkdir -p /verif/work
+flock /verif/work/.coq.lock git -C /verif checkout -- coq/Generated 2>/dev/null
 exit $rc
